@@ -204,6 +204,30 @@ func (sc *collection) doBuild(ctx context.Context) (Provider, error) {
 		}
 	}
 
+	// A service that consumes a group depends on every member of it. The
+	// consumer's edge points at the group's own node; connect that node to
+	// the members so that cycle detection and creation order see through it.
+	for groupKey, members := range sc.groups {
+		group := &groupProvider{serviceType: groupKey.Type, group: groupKey.Group}
+		for _, member := range members {
+			if member != nil {
+				group.members = append(group.members, &reflection.Dependency{
+					Type:  member.Type,
+					Key:   member.Key,
+					Group: member.Group,
+				})
+			}
+		}
+
+		if err := g.AddProviderDeferred(group); err != nil {
+			return nil, &BuildError{
+				Phase:   "graph",
+				Details: fmt.Sprintf("failed to add group %q of %v", groupKey.Group, formatType(groupKey.Type)),
+				Cause:   err,
+			}
+		}
+	}
+
 	// Phase 2: Validate graph (cycles detected here, not per-add)
 	if err := g.DetectCycles(); err != nil {
 		return nil, &BuildError{
@@ -691,6 +715,19 @@ func (r *collection) registerDescriptor(descriptor *Descriptor) error {
 
 	return nil
 }
+
+// groupProvider is the dependency-graph node of a whole group: it depends on
+// every member, and consumers of the group depend on it.
+type groupProvider struct {
+	serviceType reflect.Type
+	group       string
+	members     []*reflection.Dependency
+}
+
+func (g *groupProvider) GetType() reflect.Type                     { return g.serviceType }
+func (g *groupProvider) GetKey() any                               { return nil }
+func (g *groupProvider) GetGroup() string                          { return g.group }
+func (g *groupProvider) GetDependencies() []*reflection.Dependency { return g.members }
 
 // validateLifetimes ensures singleton and transient services don't depend on scoped services.
 // This validation prevents runtime errors where:
